@@ -4,6 +4,8 @@
 Bounded exhaustive exploration on the real gama-local executable:
 every cluster kind x composition x band width 0..dim-1 x 2 value families x
 every subset of excluded rows (x 2 exclusion mechanisms) x 4 algorithms,
+plus every ordered pair / triple of correlated clusters that share unknowns
+in a network with explicit zero coefficients (enum_multi / work_multi),
 plus every malformed matrix of a fixed menu (rel and asan builds).
 Input space, reformulations and the dense reference: lib/n10_model.py.
 """
@@ -20,7 +22,14 @@ TOL_3DEC = 0.0021     # values printed with 3 decimals
 RULE = ("every cluster kind (obs with directions/distances dim<=4, height-differences dim<=4, coordinates dim 2..5, vectors dim 3 and 6) "
         "x every composition x every band 0..dim-1 x 2 position-coded positive-definite families x every subset of excluded rows "
         "(excluded by a target without coordinates or by a gross absolute term) x 4 algorithms, in determined noisy networks; "
-        "oracles: (a) linear kinds = dense WLS with P=(C_active)^-1 (x, v, [pvv], dof, C_xx); (b) band 0 = stdev attributes; "
+        "SHARED UNKNOWNS: every ordered pair and every ordered triple (quick: triples of a 7-cluster menu) of 19 correlated clusters "
+        "(distances, directions, s-distances, z-angles, repeated distances, coordinates, height differences, vectors; dim 2..6) that refer to the same two new points, "
+        "written before / after / around an uncorrelated backbone, in a network whose aligned pairs of points make gama store EXPLICIT ZERO coefficients inside the "
+        "correlated clusters (bearing exactly 0: sin == 0; dy == 0 / dz == 0 for s-distances and z-angles: whole columns of a block that hold only zeros or -0.0), "
+        "with the control geometry (x and y exchanged: 1e-16 instead of 0) x matrix forms per cluster (full band, band 1, diagonal matrix written with band 1 / full band) "
+        "x one excluded group of rows in either cluster of a pair x 4 algorithms; "
+        "oracles: (a) linear kinds = dense WLS with P=(C_active)^-1 (x, v, [pvv], dof, C_xx); (b) band 0 = stdev attributes, and a diagonal matrix written with band >= 1 "
+        "(explicit zero covariances) = stdev attributes / band 0; "
         "(c) excluded rows = deleted rows + sub-matrix; (d) repeated-quantity clusters = whitened uncorrelated input; "
         "(e) 4 algorithms agree on every input; (f) every malformed matrix refused with a line number, no crash (rel + asan)")
 
@@ -331,6 +340,198 @@ def work_case(arg):
     return out
 
 
+# ------------------------------------------------------------------ shared unknowns (multi)
+QUICK_TRIPLE_MENU = ["sA", "dA", "rP", "tB", "zB", "cQ", "vAP"]
+
+
+def canon_forms(atoms, forms):
+    """Zf == Z for the clusters of dimension 2"""
+    return ["Z" if (f == "Zf" and M.multi_dim(a) == 2) else f for a, f in zip(atoms, forms)]
+
+
+def enum_multi(tier):
+    """several correlated clusters that share unknowns, explicit zero
+    coefficients inside them, every order of the clusters in the file"""
+    thorough = tier == "thorough"
+    menu = M.MULTI_MENU
+    out = []; seen = set()
+
+    def add(atoms, forms, geom=0, bb=None, bpos=None, excl=None):
+        atoms = list(atoms)
+        forms = canon_forms(atoms, forms)
+        lin = all(M.multi_linear(a) for a in atoms)
+        for b in ([bb] if bb is not None else (["lin", "dist"] if thorough else ["lin" if lin else "dist"])):
+            for bp in ([bpos] if bpos is not None else ([0, 1, 2] if thorough else [len(out) % 3])):
+                case = {"atoms": atoms, "forms": forms, "geom": geom, "bb": b, "bpos": bp, "excl": excl}
+                key = json.dumps(case, sort_keys=True)
+                if key not in seen:
+                    seen.add(key); out.append(case)
+
+    def lin_bb(sel):
+        return "lin" if all(M.multi_linear(a) for a in sel) else "dist"
+
+    pairs = list(itertools.permutations(menu, 2))
+    # every ordered pair x matrix forms
+    for pr in pairs:
+        if thorough:
+            for fm in itertools.product(M.MULTI_FORMS, repeat=2):
+                add(pr, fm)                                  # x 2 backbones x 3 places of the backbone
+            for f in M.MULTI_FORMS:
+                add(pr, (f, f), geom=1, bb=lin_bb(pr))       # x 3 places of the backbone
+        else:
+            for f in ("F0", "F1", "Z"):
+                add(pr, (f, f))
+            if not all(M.multi_linear(a) for a in pr):
+                add(pr, ("F0", "F0"), geom=1)
+    # every ordered triple
+    tmenu = menu if thorough else QUICK_TRIPLE_MENU
+    for tr in itertools.permutations(tmenu, 3):
+        if thorough:
+            for k, f in enumerate(("F0", "Z")):
+                add(tr, (f, f, f), bpos=(len(out) + k) % 3, bb=lin_bb(tr))
+            for r in range(3):
+                add(tr, [("F0", "F1", "Zf")[(r + i) % 3] for i in range(3)], bpos=(len(out) + r) % 3, bb=lin_bb(tr), geom=r % 2)
+        else:
+            for f in ("F0", "F1", "Z"):
+                add(tr, (f, f, f))
+    # one excluded group in one of the clusters of a pair
+    for n, pr in enumerate(pairs):
+        opts = [(ai, g) for ai in (0, 1) for g in range(len(M.multi_groups(pr[ai])))]
+        if not thorough:
+            opts = [opts[n % len(opts)]]
+        for ai, g in opts:
+            for fm in ((("F0", "F0"), ("F1", "Z"), ("Zf", "F1")) if thorough else (("F0", "F0"),)):
+                add(pr, fm, excl=[ai, g, M.multi_excl_mode(pr[ai], g)], bpos=(n + g) % 3 if thorough else None,
+                    bb=lin_bb(pr) if thorough else None)
+    return out
+
+
+def work_multi(arg):
+    """worker: one multi case -> same record as work_case.  The primary input
+    runs with the four algorithms (which must agree); the reformulated inputs
+    run with `ralgs`: all four (thorough) or envelope + one dense algorithm
+    chosen by the case index (quick)"""
+    idx, case, tmp, exe, ralgs = arg
+    if ralgs is None:
+        ralgs = [ALGS[0], ALGS[1 + idx % 3]]
+    out = {"viol": [], "runs": 0, "inputs": 0, "outcomes": [], "sample": None}
+    atoms = case["atoms"]
+    lin = all(M.multi_linear(a) for a in atoms) and case["bb"] == "lin"
+    tagk = "shared%d|%s" % (len(atoms), "excl-" + case["excl"][2] if case.get("excl") else "none")
+
+    def V(sig, detail, files):
+        out["viol"].append((sig, detail + " :: multi case " + json.dumps(case, sort_keys=True), files))
+
+    try:
+        B = M.build_multi(case)
+    except Exception as e:      # harness bug: must be loud
+        V("C10|harness-error|build-multi", repr(e), {})
+        return out
+    net = B["net"]
+    text = M.gkf(net)
+    files = {"primary.gkf": text}
+    name = "s%07d" % idx
+    prim = run4(exe, text, tmp, name + "p")
+    out["runs"] += 4; out["inputs"] += 1
+    sts = {a: status(*prim[a]) for a in ALGS}
+    bad = [a for a in ALGS if sts[a] != "adjusted"]
+    for a in bad:
+        r, R = prim[a]
+        V("C10|wellformed-not-adjusted|%s|%s" % (tagk, sts[a].split(":")[0]), "%s: %s %s" % (a, sts[a], (R.error if R else r.stderr[-300:])), files)
+    if bad:
+        out["outcomes"].append(tagk + "|not-adjusted")
+        return out
+    checked = ["e"]
+    R0 = prim[ALGS[0]][1]
+    for a in ALGS[1:]:
+        D = compare(R0, prim[a][1])
+        if D:
+            V("C10|algorithms-disagree|%s|%s|%s" % (tagk, a, D[0][0]), "%s vs %s: %s" % (ALGS[0], a, first(D)), files)
+    want = M.multi_expected_obs(case, B)
+    if len(R0.obs) != want:
+        V("C10|exclusion-set|%s" % tagk, "gama kept %d observations, the case intends %d" % (len(R0.obs), want), files)
+        out["outcomes"].append(tagk + "|other-exclusion-set")
+        return out
+    if lin:
+        ref = M.reference_wls(net)
+        for a in ALGS:
+            D = against_reference(prim[a][1], ref)
+            if D:
+                V("C10|dense-wls|%s|%s|%s" % (tagk, a, D[0][0]), "%s: %s" % (a, first(D)), files)
+        checked.append("a")
+
+    def relation(label, net2, cmp_fn=None):
+        t2 = M.gkf(net2)
+        f2 = dict(files); f2[label + ".gkf"] = t2
+        rr = run4(exe, t2, tmp, name + label[0], algs=ralgs)
+        out["runs"] += len(ralgs); out["inputs"] += 1
+        for a in ralgs:
+            s2 = status(*rr[a])
+            if s2 != "adjusted":
+                V("C10|%s|%s|reformulation-not-adjusted" % (label, tagk), "%s: %s" % (a, s2), f2)
+                continue
+            D = (cmp_fn or compare)(prim[a][1], rr[a][1])
+            if D:
+                V("C10|%s|%s|%s|%s" % (label, tagk, a, D[0][0]), "%s: %s" % (a, first(D)), f2)
+        checked.append(label[0])
+
+    n2 = M.multi_reform_diag(case, B)
+    if n2 is not None:
+        relation("b-diag-vs-stdev", n2)
+    n3 = M.multi_reform_deleted(case, B)
+    if n3 is not None:
+        relation("c-excluded-vs-deleted", n3)
+    w = M.multi_reform_whitened(case, B)
+    if w is not None:
+        n4, done = w
+
+        def cmpw(R1, R2):
+            D = compare(R1, R2, obs_too=False)
+            if D or len(R1.obs) != len(R2.obs):
+                return D or [("obs-list", "%d vs %d observations" % (len(R1.obs), len(R2.obs)))]
+            for (ai, Li, cc, sgn) in done:
+                off = M.multi_obs_offset(B, net, ai)
+                n = len(cc)
+                v = [R1.obs[off + j]["adj"] - R1.obs[off + j]["obs"] for j in range(n)]
+                for i in range(n):
+                    want_v = sum(Li[i][j] * v[j] for j in range(n)) / cc[i]
+                    got = R2.obs[off + i]["adj"] - R2.obs[off + i]["obs"]
+                    if not close(got, want_v, 5e-8):
+                        D.append(("v", "whitened residual %d of cluster %d: %r, L^-1 v / c = %r" % (i, ai, got, want_v)))
+            return D
+        relation("d-whitened", n4, cmpw)
+    # does a cluster with a column of explicit zeros precede another correlated cluster?
+    src = M.MULTI_ZERO_COLUMN[case["geom"]]
+    zero = ("zerocol-first" if any(a in src for a in atoms[:-1]) else
+            "zerocol-last" if atoms[-1] in src else
+            "zeros-inside" if (case["geom"] == 0 and any(a in ("mA", "sP", "dP") for a in atoms)) else "nozero")
+    out["outcomes"].append("%s|%s|%s|%s" % (tagk, "linear" if all(M.multi_linear(a) for a in atoms) else zero,
+                                            "+".join(sorted(set(case["forms"]))), "+".join(checked)))
+    if idx % 389 == 7:
+        out["sample"] = "multi %s -> dof %d, [pvv] %.6g, %d observations kept, relations %s" % (json.dumps(case, sort_keys=True), R0.dof, R0.pvv, len(R0.obs), "+".join(checked))
+    return out
+
+
+def against_reference(R, ref):
+    D = []
+    if R.dof != ref["dof"] or len(R.obs) != ref["nobs"]:
+        D.append(("shape", "dof %d / %d observations, reference %d / %d" % (R.dof, len(R.obs), ref["dof"], ref["nobs"])))
+        return D
+    for (pid, ch), v in sorted(ref["x"].items()):
+        g = R.adjusted.get(pid, {}).get(ch)
+        if not close(g, v, TOL_M):
+            D.append(("x", "%s.%s gama %r reference %r" % (pid, ch, g, v)))
+    order = sorted(ref["active"])
+    for o, key in zip(R.obs, order):
+        v = o["adj"] - o["obs"]
+        if not close(v, ref["res"][key], TOL_M):
+            D.append(("v", "residual of row %s: gama %r reference %r" % (key, v, ref["res"][key])))
+    if not close(R.pvv, ref["pvv"], 1e-6, TOL_REL):
+        D.append(("pvv", "[pvv] gama %r reference %r" % (R.pvv, ref["pvv"])))
+    D += compare_cxx(R, ref)
+    return D
+
+
 def compare_cxx(R, ref):
     """covariance matrix of the adjusted unknowns: m0^2 N^-1 (mm2), m0 as used"""
     D = []
@@ -424,7 +625,8 @@ def main():
 
     cases = enum_cases(ck.tier)
     mals = enum_malformed(ck.tier)
-    vlib.log("[C10 %s] %d cases, %d malformed inputs, family condition max %.2f" % (ck.tier, len(cases), len(mals), worst))
+    multis = enum_multi(ck.tier)
+    vlib.log("[C10 %s] %d cases, %d shared-unknown cases, %d malformed inputs, family condition max %.2f" % (ck.tier, len(cases), len(multis), len(mals), worst))
 
     def absorb(res, payload):
         ck.count("states", res["inputs"])
@@ -456,9 +658,22 @@ def main():
             for it, res in zip(items, ex.map(work_case, items, chunksize=8)):
                 absorb(res, {"type": "case", "case": it[1]})
                 done += 1
+        mdone = 0
+        for s in range(0, len(multis), CH):
+            if ck.time_left() < 30:
+                ck.exhaustive = False
+                ck.notes.append("deadline: %d of %d shared-unknown cases completed" % (mdone, len(multis)))
+                break
+            items = [(s + i, c, ck.tmp, exe_rel, list(ALGS) if ck.tier == "thorough" else None) for i, c in enumerate(multis[s:s + CH])]
+            for it, res in zip(items, ex.map(work_multi, items, chunksize=8)):
+                absorb(res, {"type": "multi", "case": it[1]})
+                mdone += 1
     ck.count("cases", done)
-    mal = [x for x in samples if x.startswith("malformed")][:2]
-    oth = [x for x in samples if not x.startswith("malformed")]
+    ck.count("shared_unknown_cases", mdone)
+    mal = [x for x in samples if x.startswith("malformed")][:1]
+    mul = [x for x in samples if x.startswith("multi")]
+    mal += [x for x in mul if '"excl": null' not in x][:1] + [x for x in mul if '"excl": null' in x][:1]
+    oth = [x for x in samples if not x.startswith("malformed") and not x.startswith("multi")]
     pick = []
     for k in M.KINDS:
         pick += [x for x in oth if '"kind": "%s"' % k in x and '"excl": []' not in x][:1]
@@ -467,13 +682,17 @@ def main():
     ck.counters["distinct_nontrivial"] = ck.counters.get("states", 0)
     ck.finish(RULE + "; a state = one distinct gama-local input (primary, reformulated or malformed), a transition = one gama-local execution",
               extra={"violation_signatures": dict(sorted(ck.viol_sigs.items())),
-                     "bound": {"tier": ck.tier, "cases": len(cases), "malformed_inputs": len(mals),
+                     "bound": {"tier": ck.tier, "cases": len(cases), "shared_unknown_cases": len(multis), "malformed_inputs": len(mals),
                                "family_condition_max": round(worst, 2)}},
               assumptions=["lattice networks {0,100,200}^2 x heights {0,10,30}, 1-2 new points, exact approximate coordinates, no instrument heights, sigma-apr 10, errors +-0.8 sigma",
                            "covariance values from two fixed diagonally dominant families (condition < 20); other reals are not covered",
                            "(a) only for the linear kinds; (b) only where stdev attributes exist (obs, height-differences); (c) only where the deleted input is expressible "
                            "(coordinates: xy / z groups, vectors: whole vectors); (d) only for clusters repeating one quantity (the general L^-1 transform is not expressible as an input; (a) is the whitening check there)",
-                           "directions are excluded only through a target without coordinates: LocalNetwork::test_abs_term reads the homogenised right-hand side (DESIGN D10), "
+                           "shared unknowns: one fixed 3-D network (4 fixed, 2 new points; A->P, B->Q, P->D aligned with +x, B and Q at the same height), errors 0.5..1.1 sigma "
+                           "that depend on the cluster and the row only (every order adjusts the same observations); quick: the reformulated inputs of the shared-unknown cases run "
+                           "with envelope + one dense algorithm chosen by the case index (the primary input with all four), backbone kind and place chosen by the case index; "
+                           "thorough: four algorithms everywhere, pairs with both backbones at the three places",
+                           "directions and zenith angles are excluded only through a target without coordinates: LocalNetwork::test_abs_term reads the homogenised right-hand side (DESIGN D10), "
                            "so a gross direction would contaminate its correlated neighbours; that is the business of C14",
                            "tolerances: 2e-8 m/gon on coordinates, adjusted observations and residuals, 2e-6 relative on [pvv], standard deviations and C_xx, 0.002 on 3-decimal fields"])
 
@@ -502,6 +721,8 @@ def replay(ck, exe_rel, exe_asan):
     c = payload["case"]
     if c["type"] == "malformed":
         res = work_malformed((0, c["mc"], ck.tmp, exe_rel, exe_asan))
+    elif c["type"] == "multi":
+        res = work_multi((0, c["case"], ck.tmp, exe_rel, list(ALGS)))
     else:
         res = work_case((0, c["case"], ck.tmp, exe_rel))
     for (sig, detail, files) in res["viol"]:
